@@ -49,10 +49,19 @@ if r3:
     out.append("  Response: where the rule that fired for another property states a condition the target property also needs, it was")
     out.append("  added to the target's rule list; six new rules (§3 \"Rules added in round 3\"); now %d/%d are caught by the target" % (sum(1 for r in r3 if r[4]), n3))
     out.append("  property's check and %d/%d by some check.  The rest are listed in §11b with the reason no structural clause was found." % (sum(1 for r in r3 if r[5]), n3))
+r4 = [r for r in rows if r[2] == 4]
+if r4:
+    n4 = len(r4)
+    f4t = sum(1 for r in r4 if r[7])
+    f4a = sum(1 for r in r4 if r[8])
+    out.append("* **Round 4** (%d changes for the ten properties whose checks had missed most in round 3; the agents were shown nine used" % n4)
+    out.append("  sites per property).  First sight with the rules frozen at commit 09eacd6: **%d/%d (%d%%) by the target property's check," % (f4t, n4, round(100.0 * f4t / n4)))
+    out.append("  %d/%d (%d%%) by some check**.  After the response (rule assignments; R-WRITE-TO-COPY, R-EXPORT-KIND, the GetID clause of" % (f4a, n4, round(100.0 * f4a / n4)))
+    out.append("  R-IDSPACE): %d/%d by the target check, %d/%d by some check." % (sum(1 for r in r4 if r[4]), n4, sum(1 for r in r4 if r[5]), n4))
 out.append("")
 out.append("The thorough tier re-applies, for each property, every change listed here as caught by it and requires the check to fire.")
 out.append("")
-out.append("| id | what the change does | target check fires | fires under | deciding rules | first sight (rounds 2, 3) |")
+out.append("| id | what the change does | target check fires | fires under | deciding rules | first sight (rounds 2–4) |")
 out.append("|---|---|---|---|---|---|")
 for name, prop, rnd, summ, tgt, fires, rules, fst, fsa in rows:
     out.append("| %s | %s | %s | %s | %s | %s |" % (name, summ, "yes" if tgt else "no", ",".join(fires) or "—", ", ".join(rules)[:110] or "—",
